@@ -55,7 +55,7 @@ HARNESSES = [
     ('k_digit_4', 'sentence.rs', ['C07', 'C08', 'C01'], 'bounded', 'parse_u8_digit: 4 bytes, all contents', 'thorough', 900),
     ('k_text_1', 'messages/parsers.rs', ['C13', 'C01'], 'bounded', 'parse_6bit_ascii: 1 character, every bit offset, all contents', 'quick', 900),
     ('k_text_2', 'messages/parsers.rs', ['C13', 'C01'], 'bounded', 'parse_6bit_ascii: 2 characters, every bit offset, all contents', 'quick', 900),
-    ('k_text_3', 'messages/parsers.rs', ['C13', 'C01'], 'bounded', 'parse_6bit_ascii: 3 characters, every bit offset, all contents', 'thorough', 3000),
+    ('k_text_3', 'messages/parsers.rs', ['C13', 'C01'], 'bounded', 'parse_6bit_ascii: 3 characters, every bit offset, all contents (the shortest text on which the order of the three trimming steps matters: letter, space, @)', 'quick', 1800),
 ]
 # byte-level scanners validated in the alloc configuration (under std nom's memchr reaches inline assembly)
 ALLOC_SHIM = [
